@@ -31,6 +31,14 @@ CLAIMED = {
             "For each enumerated well-typed expression tree (depth<=2, seeded depth 3) and each g, z3 proves E(g.leaves) = g.E(leaves) with the "
             "DECLARED (k,parity) for ALL real leaf values; plus contraction-order and product-commutativity identities.",
             "Reals; tiny images (2x2, 3x3, 2x2x2) - the operations are pixel-local except convolve_with (3x3 filters); trees sampled in the quick tier.", "4/C05"),
+    "C06": (JX, "symbolic execution of the jaxpr of the real ConvContract.__call__ with symbolic weights, biases and inputs; z3 (QF_NRA) per cell and group element",
+            "For each enumerated layer configuration z3 proves layer(g.x) = g.layer(x) for ALL real weights, biases and inputs and every g of the "
+            "bank's group (and unit shifts on toroidal inputs), each output block with its declared type.",
+            "Reals; bounded signatures (k<=2, channels<=2), N<=5; configurations sampled (pairwise core + seeded); filter bank concrete (C03).", "4/C06"),
+    "C11": (JX, "symbolic execution of the jaxpr of the real ConvContract.__call__ vs. an independent reference evaluation; z3 (QF_NRA); structural contract read off the traced output",
+            "For each enumerated layer configuration (all five bias settings, stride 1/2) z3 proves every output block equals the defining sum plus "
+            "the stated bias rule for ALL real weights, biases, inputs; output keys/channels/shape equal the reachable requested targets.",
+            "Reals; same bounds as C06; reference convolution shared with C04.", "4/C11"),
 }
 
 NOT_YET = {}
